@@ -40,13 +40,21 @@ func (t *TaskExecutor[T]) ExecuteAt(identifier T, callback func(), executionTime
 		queuedElement.Cancel()
 	}
 
-	scheduledTask := t.Executor.ExecuteAt(func() {
-		callback()
-
+	var scheduledTask *ScheduledTask
+	scheduledTask = t.Executor.ExecuteAt(func() {
+		// the task stops being the pending task of its identifier when it starts (not when its callback returns):
+		// it only runs if it is still the tracked one, i.e. if it was neither canceled nor replaced in the meantime.
+		// (scheduledTask is assigned before the mutex is released by ExecuteAt, so it is safe to read it here.)
 		t.queuedElementsMutex.Lock()
-		defer t.queuedElementsMutex.Unlock()
+		if queuedElement, queuedElementExists := t.queuedElements.Get(identifier); !queuedElementExists || queuedElement != scheduledTask {
+			t.queuedElementsMutex.Unlock()
 
+			return
+		}
 		t.queuedElements.Delete(identifier)
+		t.queuedElementsMutex.Unlock()
+
+		callback()
 	}, executionTime)
 
 	if scheduledTask != nil {
